@@ -45,6 +45,7 @@ type Report struct {
 	Obls        []Obligation
 	Floors      map[string]floorRec
 	Advisory    []string
+	Secondary   bool // a run under a secondary build configuration: instance floors (confirmed for the primary one) do not apply
 	Assumptions []string
 	Analysed    map[string]interface{}
 	Exhaustive  bool
@@ -100,6 +101,14 @@ func (r *Report) Check(cond bool, rule, inst, site, okBy, failDetail string) boo
 // Floor demands that a rule matched at least want instances.
 func (r *Report) Floor(rule string, got, want int) {
 	r.Floors[rule] = floorRec{got, want}
+	if r.Secondary {
+		// the confirmed counts belong to the primary configuration (files excluded by build constraints change them); a rule that
+		// matches nothing at all is still suspicious
+		if got == 0 && want > 0 {
+			r.add(rule, "floor", "-", "undecided", "rule matched no instance under this build configuration")
+		}
+		return
+	}
 	if got < want {
 		r.add(rule, "floor", "-", "undecided", fmt.Sprintf("rule matched %d instances, fewer than the %d confirmed by hand: anchors no longer resolve", got, want))
 	}
